@@ -14,6 +14,15 @@
 //!   pipe [be=ref|avx] k= a= b=     HAL on Module<FFT64Ref|FFT64Avx>(n = 2m): svp_prepare(a); svp_apply_dft(b); vec_znx_idft_apply → n i64
 //!   vmp  [be=ref|avx] k= a=v;v;… b=v;v;…   vmp_prepare(rows b_j); vmp_apply_dft(a, limb j = a_j); vec_znx_idft_apply, one column
 //!
+//!   ffma a= b= c=                  `f64::mul_add` (hardware FMA: one rounding)
+//!   be=avx on from|to|fft|ifft|mul|addmul   the `ReimArith` / `ReimFFTExecute` implementations of FFT64Avx
+//!   vmp2 [be=] k= a= b= b2= [off=1]  matrix with two output limbs (2-column kernels) → `limb0|limb1`; `off=1`:
+//!                                  vec_znx_dft_apply + vmp_apply_dft_to_dft(limb_offset = 1) → the second limb only
+//!
+//!   cnv [be=] k= rs= off= sl= sr= ml= mr= a=l;l;… b=l;l;…    cnv_prepare_left/right + cnv_apply_dft + idft of every limb (one column)
+//!   cnvp … a0= a1= b0= b1=           cnv_pairwise_apply_dft(i = 0, j = 1) on two-column operands
+//!   cnvc [be=] k= rs= off= a=l;l;… c=<i64,…>   cnv_by_const_apply (coefficient domain, i64)
+//!
 //! A result vector containing a non-finite value is printed as `err:nonfinite` (the model does not
 //! follow NaN/inf propagation).
 use std::io::{BufRead, Write};
@@ -21,12 +30,13 @@ use std::io::{BufRead, Write};
 use poulpy_cpu_avx::FFT64Avx;
 use poulpy_cpu_ref::FFT64Ref;
 use poulpy_cpu_ref::reference::fft64::reim::{
-    ReimFFTTable, ReimIFFTTable, fft_ref, ifft_ref, reim_addmul_ref, reim_from_znx_i64_ref, reim_mul_ref, reim_to_znx_i64_ref,
+    ReimArith, ReimFFTExecute, ReimFFTTable, ReimIFFTTable, fft_ref, ifft_ref, reim_addmul_ref, reim_from_znx_i64_ref, reim_mul_ref,
+    reim_to_znx_i64_ref,
 };
 use poulpy_hal::{
     api::{
         ModuleNew, ScratchOwnedAlloc, ScratchOwnedBorrow, SvpApplyDft, SvpPPolAlloc, SvpPrepare, VecZnxBigAlloc, VecZnxDftAlloc,
-        VecZnxIdftApply, VmpApplyDft, VmpPMatAlloc, VmpPrepare,
+        CnvPVecAlloc, Convolution, VecZnxDftApply, VecZnxIdftApply, VmpApplyDft, VmpApplyDftToDft, VmpPMatAlloc, VmpPrepare,
     },
     layouts::{MatZnx, Module, ScalarZnx, ScratchOwned, VecZnx, ZnxView, ZnxViewMut},
 };
@@ -72,10 +82,10 @@ fn finite_bits(v: &[f64]) -> String {
 
 macro_rules! hal_pipes {
     ($fname:ident, $be:ty) => {
-        fn $fname(op: &str, k: usize, a: &[Vec<i64>], b: &[Vec<i64>]) -> String {
+        fn $fname(op: &str, k: usize, a: &[Vec<i64>], b: &[Vec<i64>], b2: &[Vec<i64>], off: usize) -> String {
             type BE = $be;
             let n: usize = 2 << k;
-            if a.len() != b.len() || a.iter().chain(b.iter()).any(|v| v.len() != n) {
+            if a.len() != b.len() || a.iter().chain(b.iter()).chain(b2.iter()).any(|v| v.len() != n) || (op == "vmp2" && b2.len() != a.len()) {
                 return "err:shape".to_string();
             }
             let module: Module<BE> = Module::<BE>::new(n as u64);
@@ -92,6 +102,34 @@ macro_rules! hal_pipes {
                     let mut d = module.vec_znx_dft_alloc(1, 1);
                     module.svp_apply_dft(&mut d, 0, &p, 0, &v, 0);
                     module.vec_znx_idft_apply(&mut big, 0, &d, 0, scratch.borrow());
+                }
+                "vmp2" => {
+                    let rows = a.len();
+                    let mut v = VecZnx::alloc(n, 1, rows);
+                    let mut m = MatZnx::alloc(n, rows, 1, 1, 2);
+                    for j in 0..rows {
+                        v.at_mut(0, j).copy_from_slice(&a[j]);
+                        m.at_mut(j, 0).at_mut(0, 0).copy_from_slice(&b[j]);
+                        m.at_mut(j, 0).at_mut(0, 1).copy_from_slice(&b2[j]);
+                    }
+                    let mut pm = module.vmp_pmat_alloc(rows, 1, 1, 2);
+                    module.vmp_prepare(&mut pm, &m, scratch.borrow());
+                    if off == 1 {
+                        let mut ad = module.vec_znx_dft_alloc(1, rows);
+                        for j in 0..rows {
+                            let _ = j;
+                        }
+                        module.vec_znx_dft_apply(1, 0, &mut ad, 0, &v, 0);
+                        let mut d = module.vec_znx_dft_alloc(1, 1);
+                        module.vmp_apply_dft_to_dft(&mut d, &ad, &pm, 1, scratch.borrow());
+                        module.vec_znx_idft_apply(&mut big, 0, &d, 0, scratch.borrow());
+                        return join(big.at(0, 0));
+                    }
+                    let mut d = module.vec_znx_dft_alloc(1, 2);
+                    module.vmp_apply_dft(&mut d, &v, &pm, scratch.borrow());
+                    let mut big2 = module.vec_znx_big_alloc(1, 2);
+                    module.vec_znx_idft_apply(&mut big2, 0, &d, 0, scratch.borrow());
+                    return format!("{}|{}", join(big2.at(0, 0)), join(big2.at(0, 1)));
                 }
                 _ => {
                     let rows = a.len();
@@ -113,13 +151,138 @@ macro_rules! hal_pipes {
     };
 }
 
+macro_rules! hal_cnv {
+    ($fname:ident, $be:ty) => {
+        fn $fname(op: &str, t: &[&str]) -> String {
+            type BE = $be;
+            let k: usize = kv(t, "k").map(|v| v.parse().unwrap()).unwrap_or(0);
+            let n: usize = 2 << k;
+            let g = |name: &str| -> usize { kv(t, name).map(|v| v.parse().unwrap()).unwrap_or(0) };
+            let gi = |name: &str| -> i64 { kv(t, name).map(|v| v.parse().unwrap()).unwrap_or(-1) };
+            let (rs, off, sl, sr) = (g("rs"), g("off"), g("sl"), g("sr"));
+            let (ml, mr) = (gi("ml"), gi("mr"));
+            let module: Module<BE> = Module::<BE>::new(n as u64);
+            let mut scratch: ScratchOwned<BE> = ScratchOwned::alloc(1 << 24);
+            let fill = |cols: usize, limbs: &[Vec<Vec<i64>>]| -> VecZnx<Vec<u8>> {
+                let size = limbs[0].len();
+                let mut v = VecZnx::alloc(n, cols, size.max(1));
+                for (c, col) in limbs.iter().enumerate() {
+                    for (j, l) in col.iter().enumerate() {
+                        v.at_mut(c, j).copy_from_slice(l);
+                    }
+                }
+                v
+            };
+            let show = |big: &poulpy_hal::layouts::VecZnxBig<_, BE>, size: usize| -> String {
+                (0..size).map(|j| join(big.at(0, j))).collect::<Vec<_>>().join(";")
+            };
+            match op {
+                "cnvc" => {
+                    let a = vecs(t, "a");
+                    if a.iter().any(|v| v.len() != n) {
+                        return "err:shape".to_string();
+                    }
+                    let c: Vec<i64> = list(t, "c");
+                    let va = fill(1, &[a]);
+                    let mut big = module.vec_znx_big_alloc(1, rs);
+                    module.cnv_by_const_apply(off, &mut big, 0, &va, 0, &c, scratch.borrow());
+                    show(&big, rs)
+                }
+                _ => {
+                    let cols: Vec<(Vec<Vec<i64>>, Vec<Vec<i64>>)> = if op == "cnv" {
+                        vec![(vecs(t, "a"), vecs(t, "b"))]
+                    } else {
+                        vec![(vecs(t, "a0"), vecs(t, "b0")), (vecs(t, "a1"), vecs(t, "b1"))]
+                    };
+                    if cols.iter().any(|(a, b)| a.iter().chain(b.iter()).any(|v| v.len() != n)) {
+                        return "err:shape".to_string();
+                    }
+                    let nc = cols.len();
+                    let va = fill(nc, &cols.iter().map(|c| c.0.clone()).collect::<Vec<_>>());
+                    let vb = fill(nc, &cols.iter().map(|c| c.1.clone()).collect::<Vec<_>>());
+                    let mut l = module.cnv_pvec_left_alloc(nc, sl);
+                    let mut r = module.cnv_pvec_right_alloc(nc, sr);
+                    module.cnv_prepare_left(&mut l, &va, ml, scratch.borrow());
+                    module.cnv_prepare_right(&mut r, &vb, mr, scratch.borrow());
+                    let mut d = module.vec_znx_dft_alloc(1, rs);
+                    if op == "cnv" {
+                        module.cnv_apply_dft(off, &mut d, 0, &l, 0, &r, 0, scratch.borrow());
+                    } else {
+                        module.cnv_pairwise_apply_dft(off, &mut d, 0, &l, &r, 0, 1, scratch.borrow());
+                    }
+                    let mut big = module.vec_znx_big_alloc(1, rs);
+                    module.vec_znx_idft_apply(&mut big, 0, &d, 0, scratch.borrow());
+                    show(&big, rs)
+                }
+            }
+        }
+    };
+}
+
+hal_cnv!(cnv_ref, FFT64Ref);
+hal_cnv!(cnv_avx, FFT64Avx);
+
 hal_pipes!(pipes_ref, FFT64Ref);
 hal_pipes!(pipes_avx, FFT64Avx);
+
+fn answer_avx(t: &[&str]) -> Option<String> {
+    let op = t[0];
+    let k: usize = kv(t, "k").map(|v| v.parse().unwrap()).unwrap_or(0);
+    let m: usize = 1 << k;
+    Some(match op {
+        "from" => {
+            let x: Vec<i64> = list(t, "x");
+            let mut r = vec![0f64; x.len()];
+            <FFT64Avx as ReimArith>::reim_from_znx(&mut r, &x);
+            bits(&r)
+        }
+        "to" => {
+            let x = floats(t, "x");
+            let mut r = vec![0i64; x.len()];
+            <FFT64Avx as ReimArith>::reim_to_znx(&mut r, m as f64, &x);
+            join(&r)
+        }
+        "fft" => {
+            let mut x = floats(t, "x");
+            assert!(x.len() == 2 * m);
+            let tab = ReimFFTTable::<f64>::new(m);
+            <FFT64Avx as ReimFFTExecute<ReimFFTTable<f64>, f64>>::reim_dft_execute(&tab, &mut x);
+            finite_bits(&x)
+        }
+        "ifft" => {
+            let mut x = floats(t, "x");
+            assert!(x.len() == 2 * m);
+            let tab = ReimIFFTTable::<f64>::new(m);
+            <FFT64Avx as ReimFFTExecute<ReimIFFTTable<f64>, f64>>::reim_dft_execute(&tab, &mut x);
+            finite_bits(&x)
+        }
+        "mul" => {
+            let (a, b) = (floats(t, "a"), floats(t, "b"));
+            assert!(a.len() == b.len() && a.len() == 2 * m);
+            let mut r = vec![0f64; a.len()];
+            <FFT64Avx as ReimArith>::reim_mul(&mut r, &a, &b);
+            finite_bits(&r)
+        }
+        "addmul" => {
+            let (a, b) = (floats(t, "a"), floats(t, "b"));
+            let mut r = floats(t, "r");
+            assert!(a.len() == b.len() && a.len() == r.len() && a.len() == 2 * m);
+            <FFT64Avx as ReimArith>::reim_addmul(&mut r, &a, &b);
+            finite_bits(&r)
+        }
+        _ => return None,
+    })
+}
 
 fn answer(t: &[&str]) -> String {
     let op = t[0];
     let k: usize = kv(t, "k").map(|v| v.parse().unwrap()).unwrap_or(0);
     let m: usize = 1 << k;
+    if kv(t, "be") == Some("avx") {
+        if let Some(r) = answer_avx(t) {
+            return r;
+        }
+    }
     match op {
         "tab" => {
             let f = ReimFFTTable::<f64>::new(m);
@@ -175,12 +338,27 @@ fn answer(t: &[&str]) -> String {
             reim_addmul_ref(&mut r, &a, &b);
             finite_bits(&r)
         }
-        "pipe" | "vmp" => {
-            let (a, b) = (vecs(t, "a"), vecs(t, "b"));
+        "pipe" | "vmp" | "vmp2" => {
+            let (a, b, b2) = (vecs(t, "a"), vecs(t, "b"), vecs(t, "b2"));
+            let off: usize = kv(t, "off").map(|v| v.parse().unwrap()).unwrap_or(0);
             match kv(t, "be") {
-                Some("avx") => pipes_avx(op, k, &a, &b),
-                _ => pipes_ref(op, k, &a, &b),
+                Some("avx") => pipes_avx(op, k, &a, &b, &b2, off),
+                _ => pipes_ref(op, k, &a, &b, &b2, off),
             }
+        }
+        "cnv" | "cnvp" | "cnvc" => match kv(t, "be") {
+            Some("avx") => cnv_avx(op, t),
+            _ => cnv_ref(op, t),
+        },
+        "ffma" => {
+            let (a, b, c) = (floats(t, "a"), floats(t, "b"), floats(t, "c"));
+            let r: Vec<f64> = a
+                .iter()
+                .zip(b.iter())
+                .zip(c.iter())
+                .map(|((x, y), z)| std::hint::black_box(*x).mul_add(std::hint::black_box(*y), std::hint::black_box(*z)))
+                .collect();
+            bits(&r)
         }
         _ => "bad-op".to_string(),
     }
